@@ -1,4 +1,5 @@
 SPECIFICATION Spec
 CONSTANTS MaxRows1 = 3
  MaxRows2 = 2
+ Snapshot = TRUE
 INVARIANT Refines
